@@ -39,8 +39,15 @@ TRUSTED = [
     "harness/translate_classes.py: the class DAG, __subclasses__() order and iter_subclasses sequences are the live ones",
 ]
 PARTIAL = [
-    "objects registered under a superclass / double registration on one side are outside Valid (compared, not proved)",
-    "order among objects of one time point is compared with the model, not stated by the theorems (permutation + time order)",
+    "Valid excludes double registration of one side and objects registered under a superclass (documented 'not "
+    "implemented' in Part.remove): such histories (about 4% of the generated ones) are only compared with the model",
+    "order among the objects of ONE time point is compared exactly with the model; the theorems state duplicate-freeness, "
+    "exact membership and time order",
+    "query theorems assume the class ids of the registered objects and of the query lie in the generated DAG "
+    "(hypotheses hk/hc); cls=None is modelled as `object` restricted to timed classes",
+    "set_quarter_duration with a negative time is not rejected by the code; it is outside Valid and not generated",
+    "non-termination of iter_prev/iter_next on cyclic links is modelled as an error value (never reached under Inv: "
+    "iterPrev_correct/iterNext_correct show the walk succeeds)",
 ]
 RULE = ("random edit histories of 1-60 operations (add by start/end/both, remove start/end/both, set_quarter_duration, "
         "get_or_add_point, iter_all, iter_prev/next, first/last/get_point, quarter_durations) over 2-12 objects of 3-8 "
